@@ -271,6 +271,11 @@ func (e *psEval) walk(b, prev *ssa.BasicBlock, from int, env map[ssa.Value]psVal
 			default:
 				if bi, ok := cc.Value.(*ssa.Builtin); ok {
 					name = "builtin " + bi.Name()
+				} else if mc, ok := cc.Value.(*ssa.MakeClosure); ok && env[mc].kind == 3 {
+					// a local closure that captures nothing of the operands (see MakeClosure below): an uninterpreted
+					// function of its arguments
+					name = "call"
+					ops = append(ops, env[mc])
 				} else {
 					e.undecide = "dynamic call at " + e.w.InstrPos(x)
 					return
@@ -465,6 +470,49 @@ func (e *psEval) walk(b, prev *ssa.BasicBlock, from int, env map[ssa.Value]psVal
 				}
 				env[v] = s
 			}
+		case *ssa.MakeClosure:
+			// prepare := func(iri IRI) string {…}: admitted as an uninterpreted function when it only reads what it
+			// captures and nothing it captures derives from an operand
+			fn, _ := x.Fn.(*ssa.Function)
+			why := ""
+			var keys []string
+			if fn == nil || len(fn.FreeVars) != len(x.Bindings) {
+				why = "unknown closure"
+			}
+			for i := 0; why == "" && i < len(x.Bindings); i++ {
+				if refs := fn.FreeVars[i].Referrers(); refs != nil {
+					for _, r := range *refs {
+						if ld, isLoad := r.(*ssa.UnOp); !isLoad || ld.Op != token.MUL {
+							why = "the closure does more than read the variable " + fn.FreeVars[i].Name()
+						}
+					}
+				}
+				vals := []ssa.Value{x.Bindings[i]}
+				if al, isAlloc := x.Bindings[i].(*ssa.Alloc); isAlloc {
+					vals = vals[:0]
+					for _, st := range storesTo(al) {
+						vals = append(vals, st.Val)
+					}
+				}
+				for _, v := range vals {
+					o := e.operand(env, v)
+					switch {
+					case o.kind == 1:
+						keys = append(keys, fmt.Sprint(o.b))
+					case o.kind == 3:
+						keys = append(keys, o.key)
+					case o.kind == 2 && o.param >= 2:
+						keys = append(keys, fmt.Sprintf("p%d:%s", o.param, o.key))
+					default:
+						why = "the closure captures something derived from an operand"
+					}
+				}
+			}
+			if why != "" {
+				e.undecide = fmt.Sprintf("local closure at %s: %s", e.w.InstrPos(in), why)
+				return
+			}
+			env[x] = psVal{kind: 3, key: "closure " + fn.Name() + "[" + strings.Join(keys, ",") + "]"}
 		default:
 			e.undecide = fmt.Sprintf("unsupported instruction %T at %s", in, e.w.InstrPos(in))
 			return
@@ -600,12 +648,41 @@ func leavesSymmetric(leaves []psLeaf) bool {
 				}
 				comb[sa] = v
 			}
+			if consistent && psExclusive(comb) {
+				consistent = false
+			}
 			if consistent && l1.result != l2.result {
 				return false
 			}
 		}
 	}
 	return true
+}
+
+// psExclusive: the assignment makes the same expression of the same operand equal to two different string constants
+// (p == "/" and p == "") — no value does that.
+func psExclusive(sigma map[psAtom]bool) bool {
+	type lhs struct {
+		param int
+		expr  string
+	}
+	seen := map[lhs]string{}
+	for a, v := range sigma {
+		if !v || !strings.HasPrefix(a.key, "==(") || !strings.HasSuffix(a.key, "\")") {
+			continue
+		}
+		i := strings.LastIndex(a.key, ",\"")
+		if i < 0 {
+			continue
+		}
+		k := lhs{a.param, a.key[3:i]}
+		c := a.key[i+1 : len(a.key)-1]
+		if old, ok := seen[k]; ok && old != c {
+			return true
+		}
+		seen[k] = c
+	}
+	return false
 }
 
 // leavesReflexive: every leaf that is consistent with both operands being the same value returns true (or LOOP).
